@@ -18,15 +18,22 @@ Proof.
   rewrite forallb_forall in H. exact (H m Hin).
 Qed.
 
-(* the analysed set is the one the property names (nothing silently dropped by the extractor) *)
+(* the analysed set: every public/dunder instance method of the three shared classes (discovered from the
+   class bodies through the MRO, so a new method is analysed automatically); nothing silently dropped.
+   Not analysed, with the reason in translator/units_locks.py: constructors, BaseDB.create/open (set-up),
+   RSAKey.write (abstract), static/class methods (no instance). *)
 Lemma extracted_methods_present :
-  map (fun m : xmethod => let '(c, n, _) := m in (c, n)) all_methods =
+  map (fun e : string * string * list (list xstep) => let '(c, n, _) := e in (c, n)) all_method_paths =
   [("SessionCache", "__getitem__"); ("SessionCache", "__setitem__");
-   ("VerifierDB", "__getitem__"); ("VerifierDB", "__setitem__"); ("VerifierDB", "__delitem__");
+   ("VerifierDB", "__setitem__"); ("VerifierDB", "__getitem__"); ("VerifierDB", "__delitem__");
    ("VerifierDB", "__contains__"); ("VerifierDB", "check"); ("VerifierDB", "keys");
-   ("Python_RSAKey", "_rawPrivateKeyOp")]%string.
+   ("Python_RSAKey", "_rawPrivateKeyOp"); ("Python_RSAKey", "hasPrivateKey");
+   ("Python_RSAKey", "acceptsPassword"); ("Python_RSAKey", "__len__"); ("Python_RSAKey", "hashAndSign");
+   ("Python_RSAKey", "hashAndVerify"); ("Python_RSAKey", "MGF1"); ("Python_RSAKey", "EMSA_PSS_encode");
+   ("Python_RSAKey", "RSASSA_PSS_sign"); ("Python_RSAKey", "EMSA_PSS_verify");
+   ("Python_RSAKey", "RSASSA_PSS_verify"); ("Python_RSAKey", "sign"); ("Python_RSAKey", "verify");
+   ("Python_RSAKey", "encrypt"); ("Python_RSAKey", "decrypt")]%string.
 Proof. reflexivity. Qed.
-
 
 (* Clock reads.  The sequential model (and the specification) stamp a stored entry and age a
    looked-up entry with the clock value of the call's position in the history, i.e. at its
